@@ -894,7 +894,7 @@ Definition hop_ok (h : hop) : Prop :=
 
 Lemma hstep_inv y h : hop_ok h -> sysinv y -> sysinv (fst (hstep y h)).
 Proof.
-  intros Hok Hy. destruct h as [pid t a newid|k pid|k pid|pid id|k|k m a newid]; cbn [hstep hop_ok] in *.
+  intros Hok Hy. destruct h as [pid t a newid|k pid|k pid|pid id|k|k|k m a newid]; cbn [hstep hop_ok] in *.
   - pose proof (cstep_inv y (K_create t a newid) Hok Hy) as H1.
     destruct (cstep y (K_create t a newid)) as [y1 o1]. cbn [fst] in H1.
     destruct o1 as [[v| | | |]| | | |]; try exact H1. destruct v; try exact H1.
@@ -908,6 +908,14 @@ Proof.
     exact (cstep_inv y (K_proxy pid (p_id p) false) Logic.I Hy).
   - exact (cstep_inv y (K_proxy pid id false) Logic.I Hy).
   - exact (cstep_inv y (K_drop k) Logic.I Hy).
+  - (* the holder vanishes: its reference moves from the live proxies to the orphans *)
+    destruct (nth_error (y_proxies y) k) as [p|] eqn:En; [|exact Hy].
+    destruct Hy as [I H]. split; [exact I|]. intros id'. cbn [fst y_srv].
+    rewrite (H id'), !holders_unfold. cbn [y_proxies y_pending y_orphans].
+    assert (En' : nth_error (map p_id (y_proxies y)) k = Some (p_id p))
+      by (rewrite nth_error_map, En; reflexivity).
+    rewrite map_remove_nth, (count_remove_nth id' k _ (p_id p) En'), count_z_app.
+    cbn [count_z]. destruct (p_id p =? id'); lia.
   - pose proof (cstep_inv y (K_call k m a newid 0) Hok Hy) as H1.
     destruct (cstep y (K_call k m a newid 0)) as [y1 o1]. cbn [fst] in H1.
     destruct o1 as [[v|e|rid t2|e|]| | | |]; try exact H1.
@@ -966,6 +974,17 @@ Proof.
   - exfalso. destruct C as (_ & _ & Hnone).
     pose proof (inv_same _ I _ Hid) as Hs. unfold dmem in Hs. rewrite Hg, Hnone in Hs. discriminate.
 Qed.
+
+(* structural facts of Server.incref / decref / create as found in the source on this run: every
+   access to id_to_obj / id_to_refcount in them (and create's call of incref) is inside a
+   `with self.mutex:` block, the mutex is a threading.RLock created once in __init__, and these
+   are the only methods of Server that store into the tables.  (The shallow translation of the
+   three functions flattens the `with`; this is what keeps the lock visible to the check.) *)
+Lemma gen_mutex_discipline :
+  G_manager.incref_under_mutex = true /\ G_manager.decref_under_mutex = true /\
+  G_manager.create_under_mutex = true /\ G_manager.mutex_is_rlock = true /\
+  G_manager.table_writers = ["__init__"; "create"; "decref"; "incref"]%string.
+Proof. repeat split; reflexivity. Qed.
 
 (* structural fact of BaseProxy.__init__ as found in the source on this run: the after-fork hook
    is registered unconditionally (not under `if incref:`), after the guarded _incref() *)
